@@ -46,6 +46,7 @@ type StubSpec struct {
 	Target string // e.g. time.Now or (*pkg.T).Method
 	Stub   string // harness function name
 	Files  []string
+	Method string // for method targets: the method name as it appears at call sites
 }
 
 type HarnessDecl struct {
@@ -190,6 +191,9 @@ func LoadProgram(spec LoadSpec) (*Program, error) {
 					for _, p := range parts[1:] {
 						if strings.HasPrefix(p, "files=") {
 							ss.Files = strings.Split(strings.TrimPrefix(p, "files="), ",")
+						}
+						if strings.HasPrefix(p, "method=") {
+							ss.Method = strings.TrimPrefix(p, "method=")
 						}
 					}
 					P.stubSpec = append(P.stubSpec, ss)
